@@ -9,7 +9,7 @@ VARIABLE l
 
 Rng(s) == { s[i] : i \in 1..Len(s) }
 IsEv(k) == l <= Len(Log) /\ Log[l].ev = k /\ l' = l + 1
-Skipped == {"lookup", "sync_deleted", "pod_exist_err"}
+Skipped == {"lookup", "sync_deleted", "pod_exist_err", "drift_mid", "drift_settle"}
 
 CloudOf(lst) == [e \in Enis |-> IF \E i \in 1..Len(lst) : lst[i].e = e
                                 THEN LET x == lst[CHOOSE i \in 1..Len(lst) : lst[i].e = e] IN
@@ -60,6 +60,7 @@ TDeleteE == IsEv("delete_end") /\ DeleteEnd(Log[l].e, Log[l].effect)
 TDescr   == IsEv("describe") /\ Describe
 TDriftR  == IsEv("drift_remove") /\ DriftRemove(Log[l].e, Log[l].a)
 TDriftA  == IsEv("drift_add") /\ DriftAdd(Log[l].e, Log[l].a)
+TConf    == IsEv("conf_change") /\ ConfChange(ConfOf(Log[l].conf))
 TDrain   == IsEv("drain") /\ Drain
 TFix     == IsEv("fixpoint") /\ LET e == Log[l] IN
                 /\ crE = EnisOf(e.enis) /\ crI = IpsOf(e.ips) /\ cloud = CloudOf(e.cloud)              \* (I) the harness and the walk agree on the state
@@ -71,7 +72,7 @@ TSynced  == IsEv("synced") /\ LET e == Log[l] IN
 TInit == Init /\ l = 1
 TNext == TReset \/ TSkip \/ TPodC \/ TPodG \/ TPodX \/ TPodR \/ TCniAdd \/ TCniDel \/ TFlush \/ TExist \/ TGcDone \/ TRt
          \/ TRestart \/ TRecB \/ TCrW \/ TEarly \/ TCr \/ TCreateB \/ TCreateE \/ TAttach \/ TAssignB \/ TAssignE \/ TUnassB \/ TUnassE
-         \/ TDetach \/ TDeleteB \/ TDeleteE \/ TDescr \/ TDriftR \/ TDriftA \/ TDrain \/ TFix \/ TSynced
+         \/ TDetach \/ TDeleteB \/ TDeleteE \/ TDescr \/ TDriftR \/ TDriftA \/ TConf \/ TDrain \/ TFix \/ TSynced
 TSpec == TInit /\ [][TNext]_<<vars, l>>
 
 HighWater == IF l > TLCGet(1) THEN TLCSet(1, l) ELSE TRUE
